@@ -38,7 +38,7 @@ def build(spec):
 def main(tier, seed):
     t0 = time.time()
     specs = enumerate_specs(tier)
-    results = runner.run_pool(__name__, specs, tier, seed)
+    results = runner.run_pool(__name__, specs, tier, seed, optkw={"ties": True})
     return runner.finish(
         PROP, tier, seed, results, t0,
         bounds={"spatial": "L<=6, H,W<=4", "kernel": "k<=3", "stride": "<=3 (1d) / <=2 (2d)", "padding": "<=2 (1d) / <=1 (2d)",
@@ -46,7 +46,7 @@ def main(tier, seed):
                 "max-pool": "configurations whose arg-max pattern count exceeds the path budget are skipped",
                 "ops": sorted(cat.REG)},
         assumptions=["floats are modelled as reals (no rounding)",
-                     "kinks (relu family at 0, pooling ties) are outside the claim",
+                     "two-way kinks/ties (relu family at 0, one tied pair in a pooling window) are examined separately: the gradient must lie on the segment between the gradients of the two adjacent smooth pieces; higher-order ties are outside the claim",
                      "cpu_ops.epsilon := 0 for log_softmax / BCE / BCE-with-logits / cross-entropy (guard effects belong to C09)",
                      "BCE probabilities in (0,1), targets in [0,1], running variance > 0, eps > 0",
                      "dropout: the uniform draws are fresh symbolic values in [0,1) (generator contract)"],
